@@ -533,6 +533,11 @@ class Escape:
             defs = [n for n in own_nodes(f.node)
                     if (isinstance(n, ast.Assign) and any(isinstance(t, ast.Name) and t.id == arg.id for t in n.targets))
                     or (isinstance(n, ast.AnnAssign) and isinstance(n.target, ast.Name) and n.target.id == arg.id and n.value is not None)]
+            if not defs:
+                # a module-level constant
+                defs = [n for n in f.module.tree.body
+                        if (isinstance(n, ast.Assign) and any(isinstance(t, ast.Name) and t.id == arg.id for t in n.targets))
+                        or (isinstance(n, ast.AnnAssign) and isinstance(n.target, ast.Name) and n.target.id == arg.id and n.value is not None)]
             if len(defs) != 1:
                 raise AnalysisError(f"map_exceptions argument `{arg.id}` has {len(defs)} definitions in {f.qual}")
             arg = defs[0].value  # type: ignore[assignment]
